@@ -65,7 +65,7 @@ def case_cholesky(H, n, pd, upper, k=1):
                 return True, 'raised %s for a positive definite A (min eig %.3g)' % (type(e).__name__, ev.min())
             return False, 'raised as required'
         res = (A @ x - b).abs().max().item()
-        if res > 1e-6 * (1 + b.abs().max().item()):
+        if res != res or res > 1e-6 * (1 + b.abs().max().item()):
             return True, 'returned a vector with residual |Ax-b| = %.3g without raising; A=%s (eigenvalues %s)' % (res, A.tolist(), ev.tolist())
         return False, 'residual %.3g' % res
 
@@ -84,6 +84,52 @@ def case_cholesky(H, n, pd, upper, k=1):
             # raising on a PD matrix: the raising path must be infeasible
             H.prove('%s/no-raise-on-PD/path%d' % (name, H.paths), H.hyps_of(ctx), z3.BoolVal(False), replay=replay,
                     key='C10/Cholesky/raises-on-PD')
+
+
+def case_cholesky_batch(H, n, bad):
+    """a batch of two systems of which item `bad` is symmetric but NOT positive definite (the other one is): whatever is returned
+    without raising must solve every item"""
+    name = 'C10/Cholesky/batch2/n=%d/item%d-notPD' % (n, bad)
+    k = 1
+
+    def prog(m):
+        A0, M0, _ = _sym_matrix(m, n, 'a', 100 + n)
+        A1, M1, _ = _sym_matrix(m, n, 'c', 300 + n)
+        Ms = [M0, M1]
+        for i_, M in enumerate(Ms):
+            spd = _spd_assume(M, n)
+            m.ctx.assume += [z3.Not(z3.And(spd))] if i_ == bad else spd
+        A = torch.stack([A0, A1])
+        m.set_terms(A, [M0[i][j] for i in range(n) for j in range(n)] + [M1[i][j] for i in range(n) for j in range(n)])
+        b = torch.randn(2, n, k, dtype=DT)
+        bs = m.symbolic(b, 'b')
+        x = ppos.Cholesky()(A, b)
+        return m.full_terms(x), Ms, bs
+
+    def replay(model):
+        def mat_(pre):
+            A = torch.tensor([[float(model.get('%s%d' % (pre, i * n + j), 0.0)) for j in range(n)] for i in range(n)], dtype=DT)
+            return 0.5 * (A + A.T)
+        A = torch.stack([mat_('a'), mat_('c')])
+        b = torch.tensor([float(model.get('b%d' % i, 0.0)) for i in range(2 * n * k)], dtype=DT).view(2, n, k)
+        ev = torch.linalg.eigvalsh(A)
+        try:
+            x = ppos.Cholesky()(A, b)
+        except Exception as e:
+            return False, 'raised as required'
+        res = (A @ x - b).abs().amax(dim=(-1, -2))
+        if (not torch.isfinite(res).all()) or res.max().item() > 1e-6 * (1 + b.abs().max().item()):
+            return True, ('returned without raising for a batch with a non-positive-definite item; residuals |Ax-b| per item = %s, '
+                          'eigenvalues per item %s' % (res.tolist(), ev.tolist()))
+        return False, 'residuals %s' % res.tolist()
+
+    for ctx, (x, Ms, bs) in run_paths(H, name, prog, raised=lambda ctx, e: H.absorb(ctx)):
+        hyp = H.hyps_of(ctx)
+        for it in range(2):
+            Ax = T.mm(Ms[it], T.mat(x[it * n * k:(it + 1) * n * k], n, k))
+            for i in range(n):
+                H.prove('%s/path%d/item%d/Ax=b[%d]' % (name, H.paths, it, i), hyp, Ax[i][0] == bs[it * n * k + i * k], replay=replay,
+                        key='C10/Cholesky/not-PD-must-raise')
 
 
 # ------------------------------------------------------------------------------------------------ PINV / LSTSQ
@@ -332,7 +378,7 @@ def case_bsr(H, g1, g2, b1, b2, modes, patterns):
 def run(H):
     H.assumptions += ['exact real arithmetic; conditioning up to 1e8 and the LAPACK kernels themselves are outside (contract stubs)',
                       'CG: exact-arithmetic conjugate gradients; iteration counts under rounding are outside']
-    H.bounds += ['Cholesky n<=%d, right-hand sides k<=2' % (2 if H.quick else 3), 'PINV/LSTSQ shapes 2x2, 3x2, 2x3 (+batch 2)',
+    H.bounds += ['Cholesky n<=%d, right-hand sides k<=2; batches of 2 systems (n=2) mixing a positive definite and a non-PD item' % (2 if H.quick else 3), 'PINV/LSTSQ shapes 2x2, 3x2, 2x3 (+batch 2)',
                  'CG n<=2 with maxiter=n+1 (exact finite termination makes the default 10n equivalent)',
                  'block grids up to 2x2 (quick) / 3x2,2x3 (thorough), block sizes 1..2, every sparsity pattern pair incl. empty']
     try:
@@ -340,6 +386,8 @@ def run(H):
             for pd in (True, False):
                 for upper in (False, True):
                     case_cholesky(H, n, pd, upper, k=1 if n > 1 else 2)
+        for bad in (0, 1):
+            case_cholesky_batch(H, 2, bad)
     except Exception as e:
         import traceback; traceback.print_exc()
         H.engine_error('cholesky', e)
